@@ -237,6 +237,17 @@ _header = \"\"\"\\
             return self.json_compat_obj_decode_helper(data_type.validator, obj)
         else:
             return None"""),
+    ('c06-recursion-escapes', 'C06', 'stone/backends/python_rsrc/stone_serializers.py',
+     """    except RecursionError:
+        # The decoder recurses once per level of nesting.
+        raise bv.ValidationError('input is nested too deeply')
+""",
+     """    except RecursionError:
+        raise
+"""),
+    ('c03-example-alias-nullable-required', 'C03', 'stone/ir/data_types.py',
+     """            elif field.has_default or unwrap(field.data_type)[1]:""",
+     """            elif field.has_default or isinstance(field.data_type, Nullable):"""),
     # ---- C07 ------------------------------------------------------------------------
     ('c07-lenient-rejects-unknown-fields', 'C07', 'stone/backends/python_rsrc/stone_serializers.py',
      """        if self.strict:
